@@ -114,8 +114,8 @@ def history_class(revs):
     return cls
 
 
-def load_cases(rng, revs, kind, junk=b''):
-    outs = histgen.assemble(revs, (1, 0), junk=junk)
+def load_cases(rng, revs, kind, junk=b'', self_cycle=False):
+    outs = histgen.assemble(revs, (1, 0), junk=junk, self_cycle=self_cycle)
     cases = []
     for o in outs:
         sub = revs[:o['nrev']]
@@ -164,10 +164,12 @@ def gen_base_doc(rng, big=False):
     return doc, ids, max_id
 
 
-def gen_steps(rng, ids, max_id, nsteps, with_page=True):
+def gen_steps(rng, ids, max_id, nsteps, with_page=True, stream=False):
     steps = []
     ids = list(ids)
-    for _ in range(nsteps):
+    for sn in range(nsteps):
+        if stream and sn > 0:
+            max_id += 1          # the cross-reference stream written by the previous save took the next number
         ops = []
         for _ in range(rng.randint(1, 4)):
             k = rng.random()
@@ -202,9 +204,10 @@ def gen_inc_case(rng, big=False):
     junk = b''
     if rng.random() < 0.3:
         junk = bytes(rng.choice(b'garbage \n\x00\xff%PD') for _ in range(rng.randint(1, 40)))
-    if style == 'stream':
-        max_id += 1
-    steps = gen_steps(rng, ids, max_id, rng.randint(1, 3))
+    # the max_id an IncrementalDocument starts from is the LOADED one: the largest number in the cross-reference
+    # section (the document's own max_id slack is not written); a cross-reference stream has number max_id + 1
+    loaded_max = max_id + 1 if style == 'stream' else max(ids)
+    steps = gen_steps(rng, ids, loaded_max, rng.randint(1, 3), stream=(style == 'stream'))
     kind = 'inc-' + style + ('-junk' if junk else '') + ('-big' if big else '')
     return (L('inc', doc, style, xb(junk), steps), {'kind': kind, 'nontrivial': True, 'class': []})
 
@@ -256,7 +259,8 @@ def gen_cases(rng, tier):
         if rng.random() < 0.2:
             junk = bytes(rng.choice(b'garbage \n\x00\xff%PD') for _ in range(rng.randint(1, 40)))
             kind += '-junk'
-        cases += load_cases(rng, revs, kind, junk)
+        cyc = revs[0].style == 'table' and not any(p[3] != 'plain' for p in revs[0].puts) and rng.random() < 0.3
+        cases += load_cases(rng, revs, kind + ('-prevcycle' if cyc else ''), junk, self_cycle=cyc)
     for k in range(n):
         cases.append(gen_inc_case(rng, big=(k % 30 == 7)))
     for k in range(n // 2):
@@ -279,8 +283,8 @@ SPEC = {
     'bin': 'c07',
     'gen_cases': gen_cases,
     'classify': classify,
-    'model_timeout': 300,
-    'impl_timeout': 300,
+    'model_timeout': 1200,
+    'impl_timeout': 1200,
     'rule': 'random revision histories (1-5 revisions; each replaces a random subset, adds objects, optionally frees some or bumps '
             'generations; per-revision cross-reference table / stream / hybrid; plain objects or object streams; optional bytes before '
             'the header) assembled byte by byte by gen/histgen.py, EVERY prefix loaded and compared with latest-revision-wins and with '
